@@ -385,3 +385,74 @@ Proof.
   intros s. unfold float_conv.
   repeat (match goal with |- context [match ?X with _ => _ end] => destruct X end; try discriminate).
 Qed.
+
+(* ------------------------------------------------------------------ *)
+(* plain decimal digit strings: denote is the usual decimal value       *)
+(* ------------------------------------------------------------------ *)
+Lemma is_dec_not_ws : forall c, is_dec c = true -> is_ws c = false.
+Proof. intros c. unfold is_dec, is_ws. lia. Qed.
+
+Lemma trim_end_dec : forall s, forallb is_dec s = true -> trim_end s = s.
+Proof.
+  induction s as [|c r IH]; intros H; cbn [forallb trim_end] in *; [reflexivity|].
+  apply andb_true_iff in H. destruct H as [Hc Hr]. rewrite (IH Hr).
+  destruct r; [rewrite (is_dec_not_ws _ Hc)|]; reflexivity.
+Qed.
+
+Lemma trim_dec : forall s, forallb is_dec s = true -> trim s = s.
+Proof.
+  intros s H. unfold trim. destruct s as [|c r]; [reflexivity|].
+  pose proof H as H0. cbn [forallb] in H0. apply andb_true_iff in H0. destruct H0 as [Hc _].
+  cbn [trim_start]. rewrite (is_dec_not_ws _ Hc). apply trim_end_dec. exact H.
+Qed.
+
+Lemma digit_val_dec : forall c, is_dec c = true -> digit_val 10 c = Some (Z.of_N c - 48).
+Proof.
+  intros c H. unfold digit_val. unfold is_dec in H.
+  destruct ((48 <=? Z.of_N c) && (Z.of_N c <=? 57)) eqn:E; [|lia].
+  destruct (Z.of_N c - 48 <? 10) eqn:E2; [reflexivity|lia].
+Qed.
+
+Lemma horner_dec : forall s a, forallb is_dec s = true ->
+  horner 10 s a = Some (fold_left (fun a c => a * 10 + (Z.of_N c - 48)) s a).
+Proof.
+  induction s as [|c r IH]; intros a H; cbn [forallb horner fold_left] in *; [reflexivity|].
+  apply andb_true_iff in H. destruct H as [Hc Hr]. rewrite (digit_val_dec _ Hc). apply IH. exact Hr.
+Qed.
+
+Lemma denote_decimal : forall s, s <> [] -> forallb is_dec s = true -> denote s = Some (dec_value s).
+Proof.
+  intros s Hne H. unfold denote. rewrite (trim_dec _ H).
+  destruct s as [|c r]; [congruence|].
+  pose proof H as H0. cbn [forallb] in H0. apply andb_true_iff in H0. destruct H0 as [Hc Hr].
+  assert (E45 : N.eqb c 45 = false) by (unfold is_dec in Hc; lia).
+  assert (E43 : N.eqb c 43 = false) by (unfold is_dec in Hc; lia).
+  unfold strip_minus. rewrite E45.
+  assert (Hs : split_radix (c :: r) = (10, c :: r)).
+  { unfold split_radix. destruct r as [|b r']; [reflexivity|].
+    cbn [forallb] in Hr. apply andb_true_iff in Hr. destruct Hr as [Hb _].
+    assert (N.eqb b 120 = false) by (unfold is_dec in Hb; lia).
+    assert (N.eqb b 88 = false) by (unfold is_dec in Hb; lia).
+    assert (N.eqb b 111 = false) by (unfold is_dec in Hb; lia).
+    assert (N.eqb b 79 = false) by (unfold is_dec in Hb; lia).
+    repeat match goal with Hx : N.eqb b _ = false |- _ => rewrite Hx; clear Hx end.
+    cbn [orb]. rewrite !andb_false_r. reflexivity. }
+  rewrite Hs. unfold signed_value. rewrite E43, E45. cbn [orb].
+  assert (Hh : horner 10 (c :: r) 0 = Some (dec_value (c :: r))) by (apply horner_dec; exact H).
+  destruct r; rewrite Hh; reflexivity.
+Qed.
+
+(* "for every digit string": accepted => the stored number is the decimal value *)
+Lemma decimal_literal_exact : forall s n,
+  s <> [] -> forallb is_dec s = true -> parse_integer_literal s = Ok n -> n = dec_value s.
+Proof.
+  intros s n Hne H Hp. apply parse_integer_literal_exact in Hp. destruct Hp as [Hd _].
+  rewrite (denote_decimal _ Hne H) in Hd. congruence.
+Qed.
+
+Lemma decimal_count_exact : forall s n,
+  s <> [] -> forallb is_dec s = true -> skip_limit s = Ok n -> Z.of_N n = dec_value s.
+Proof.
+  intros s n Hne H Hp. apply skip_limit_exact in Hp. destruct Hp as [Hd _].
+  rewrite (denote_decimal _ Hne H) in Hd. congruence.
+Qed.
